@@ -110,6 +110,9 @@ func c05Run(t *testing.T, sc c05Scenario, c *vsched.Chooser) (out vsched.Outcome
 		if s.Livelock {
 			v = append(v, vsched.Fail("livelock", "only spinning threads remain: %v", s.Blocked))
 		}
+		for _, tp := range s.ThreadPanics {
+			v = append(v, vsched.Fail("panic-in-thread", "%s", tp))
+		}
 		// duplicates / phantom items
 		for id, n := range h.count {
 			if n > expected[id] {
